@@ -204,6 +204,15 @@ Fixpoint has_start (s : nat) (evs : list event) : bool :=
   | _ :: evs' => has_start s evs'
   end.
 
+(* is some table mounted on server s AFTER its Start?  (the API allows it; such routes appear in
+   Routes() but are never bound to the router — "register before Start" is the documented use) *)
+Fixpoint mounts_after_start (s : nat) (started : bool) (evs : list event) : bool :=
+  match evs with
+  | [] => false
+  | EStart s' :: evs' => mounts_after_start s (started || Nat.eqb s' s) evs'
+  | EMount m :: evs' => (started && Nat.eqb (msrv m) s) || mounts_after_start s started evs'
+  end.
+
 (* what Start of server s must do, from what the user wrote only *)
 Definition spec_start (cfgs : list scfg) (tables : store) (evs : list event) (s : nat) : start_result :=
   start_server cfgs s (spec_regs tables (before_start s evs) s).
